@@ -7,257 +7,7 @@
 
 using TC = TemplateCore<char, Value<char>, StringStream<char>>;
 
-// ---------------------------------------------------------------------------------------------------------
-// reference values
-struct RV {
-    bool        has    = false; // a defined numeric value
-    bool        unspec = false; // the documented semantics do not determine this case: not judged
-    bool        text   = false; // a text operand (only meaningful next to == / !=)
-    std::string str;
-    int         kind = 0; // 0 unsigned, 1 signed, 2 real
-    long double v    = 0;
-    bool        inexact = false; // a rounding happened on the way (e.g. 3/2.5): IEEE results depend on the association
-};
-static RV num(long double v, int kind) {
-    RV r;
-    if (!((kind == 0 && v >= 0 && v <= 18446744073709551615.0L) || fabsl(v) < 9.0e18L)) {
-        r.unspec = true; // outside 64 bits: the property's restriction
-        return r;
-    }
-    r.has  = true;
-    r.v    = (long double)(double)v; // the implementation computes in IEEE double: round after every operation
-    r.kind = kind;
-    return r;
-}
-static RV none() { return RV(); }
-static RV unspecified() {
-    RV r;
-    r.unspec = true;
-    return r;
-}
-static bool is_int(long double v) { return v == floorl(v); }
-
-static bool g_judge_negneg = false;
-static const char *OPS[16] = {"||", "&&", "==", "!=", ">=", "<=", ">", "<", "|", "&", "+", "-", "*", "/", "%", "^"};
-// documented levels (higher binds tighter): or/and 1; comparisons 2; bitwise 3; add/sub 4; mul/div 5; rem/exp 6
-static const int LEVEL[16] = {1, 1, 2, 2, 2, 2, 2, 2, 3, 3, 4, 4, 5, 5, 6, 6};
-
-static RV apply_exact(int op, const RV &a, const RV &b);
-static RV apply(int op, const RV &a, const RV &b) {
-    if (a.unspec || b.unspec) {
-        return unspecified();
-    }
-    const std::string o = OPS[op];
-    const bool        arith = (o == "+" || o == "-" || o == "*" || o == "/");
-    if ((a.inexact || b.inexact) && !arith) {
-        return unspecified(); // a comparison, remainder, power or logic on a rounded value may flip with the association
-    }
-    RV r = apply_exact(op, a, b);
-    if (r.has && arith) {
-        r.inexact = a.inexact || b.inexact;
-        if (o == "/" && b.has && b.v != 0) {
-            long double q = a.v / b.v;
-            if (!((long double)(double)q == q && q * b.v == a.v)) {
-                r.inexact = true;
-            }
-        }
-    }
-    return r;
-}
-static RV apply_exact(int op, const RV &a, const RV &b) {
-    const std::string o = OPS[op];
-    if (o == "==" || o == "!=") {
-        RV   r;
-        bool eq;
-        // a side "is a number" when it is a numeric kind; strings (numeric or not), booleans and null carry a text view
-        if (a.text && b.text) {
-            eq = a.str == b.str;
-        } else if (a.text || b.text) {
-            // numeric comparison: the text side has to be a number itself
-            const RV &t = a.text ? a : b;
-            const RV &n = a.text ? b : a;
-            if (!n.has) {
-                return none();
-            }
-            if (!t.has) {
-                return none(); // text that is not a number cannot be compared numerically
-            }
-            eq = t.v == n.v;
-        } else {
-            if (!a.has || !b.has) {
-                return none();
-            }
-            eq = a.v == b.v;
-        }
-        return num((o == "==") == eq ? 1 : 0, 0);
-    }
-    if (!a.has || !b.has) {
-        return none();
-    }
-    auto kind3 = [&](long double v) { return (a.kind == 2 || b.kind == 2) ? 2 : ((a.kind == 1 || b.kind == 1 || v < 0) ? 1 : 0); };
-    if (o == "+") {
-        return num(a.v + b.v, kind3(a.v + b.v));
-    }
-    if (o == "-") {
-        return num(a.v - b.v, kind3(a.v - b.v));
-    }
-    if (o == "*") {
-        return num(a.v * b.v, kind3(a.v * b.v));
-    }
-    if (o == "/") {
-        if (b.v == 0) {
-            return none();
-        }
-        return num(a.v / b.v, 2);
-    }
-    if (o == "%") {
-        long double x = truncl(a.v), y = truncl(b.v);
-        if (y == 0) {
-            return none();
-        }
-        return num(fmodl(x, y), 1);
-    }
-    if (o == "^") {
-        if (a.v == 0 && !is_int(b.v)) {
-            return unspecified(); // 0 to a fractional power
-        }
-        if (!is_int(b.v)) {
-            return none(); // fractional power
-        }
-        if (fabsl(a.v) > 0 && fabsl(a.v) < 1) {
-            // "No power of fraction at the moment": the pinned suite (EvaluateTest 19: 0.25^3) fixes 'no value' for a base
-            // strictly between 0 and 1, ordinary arithmetic has a value; neither is judged
-            return unspecified();
-        }
-        if (a.v < 0 && b.v < 0 && !g_judge_negneg) {
-            // the pinned suite fixes -8^-2 = -0.015625 (sign kept for an even negative exponent), which contradicts ordinary
-            // arithmetic for the literal -8; judged once by the dedicated stage (a known finding), not in every composite
-            return unspecified();
-        }
-        if (a.v == 0) {
-            if (b.v < 0) {
-                return unspecified(); // 1/0 in disguise: not pinned by the document
-            }
-            if (b.v == 0) {
-                return unspecified(); // 0^0
-            }
-            return num(0, a.kind);
-        }
-        long double r = powl(fabsl(a.v), fabsl(b.v));
-        if (b.v < 0) {
-            r = 1 / r;
-        }
-        if (a.v < 0 && fmodl(fabsl(b.v), 2) == 1) {
-            r = -r;
-        }
-        return num(r, (b.v < 0 || a.kind == 2) ? 2 : (r < 0 ? 1 : 0));
-    }
-    if (o == "&" || o == "|") {
-        if (!is_int(a.v) || !is_int(b.v) || a.v < 0 || b.v < 0 || a.kind == 2 || b.kind == 2) {
-            return unspecified();
-        }
-        unsigned long long x = (unsigned long long)a.v, y = (unsigned long long)b.v;
-        return num((long double)(o == "&" ? (x & y) : (x | y)), 0);
-    }
-    if (o == "&&") {
-        return num((a.v > 0 && b.v > 0) ? 1 : 0, 0);
-    }
-    if (o == "||") {
-        return num((a.v > 0 || b.v > 0) ? 1 : 0, 0);
-    }
-    bool c = o == ">" ? a.v > b.v : (o == "<" ? a.v < b.v : (o == ">=" ? a.v >= b.v : a.v <= b.v));
-    return num(c ? 1 : 0, 0);
-}
-
-// the set of values of a flat expression under every association the document admits
-using RSet = std::vector<RV>;
-static void add_unique(RSet &s, const RV &r) {
-    for (auto &x : s) {
-        if (x.has == r.has && x.unspec == r.unspec && x.text == r.text && x.v == r.v && x.str == r.str && x.inexact == r.inexact) {
-            return;
-        }
-    }
-    s.push_back(r);
-}
-// operands[i], ops[i] between operand i and i+1
-static RSet eval_level(const std::vector<RSet> &operands, const std::vector<int> &ops, int level);
-static RSet eval_run(const std::vector<RSet> &operands, const std::vector<int> &ops) {
-    // all operators have the same documented level
-    const size_t n = ops.size();
-    if (n == 0) {
-        return operands[0];
-    }
-    bool same = true, left_only = true;
-    for (size_t i = 0; i < n; i++) {
-        same = same && ops[i] == ops[0];
-        std::string o = OPS[ops[i]];
-        // repeated - / % and + - , * / mixes: ordinary left-to-right
-        left_only = left_only && (o == "+" || o == "-" || o == "*" || o == "/");
-    }
-    std::string o0 = OPS[ops[0]];
-    if (same && (o0 == "%")) {
-        left_only = true;
-    }
-    if (same && (o0 == "&&" || o0 == "||" || o0 == "&" || o0 == "|")) {
-        left_only = true; // associative
-    }
-    if (left_only) {
-        RSet acc = operands[0];
-        for (size_t i = 0; i < n; i++) {
-            RSet nx;
-            for (auto &a : acc) {
-                for (auto &b : operands[i + 1]) {
-                    add_unique(nx, apply(ops[i], a, b));
-                }
-            }
-            acc = nx;
-        }
-        return acc;
-    }
-    // the document does not order these: every bracketing is admissible
-    std::vector<std::vector<RSet>> f(n + 1, std::vector<RSet>(n + 1));
-    for (size_t i = 0; i <= n; i++) {
-        f[i][i] = operands[i];
-    }
-    for (size_t len = 1; len <= n; len++) {
-        for (size_t i = 0; i + len <= n; i++) {
-            size_t j = i + len;
-            RSet   r;
-            for (size_t k = i; k < j; k++) {
-                for (auto &a : f[i][k]) {
-                    for (auto &b : f[k + 1][j]) {
-                        add_unique(r, apply(ops[k], a, b));
-                    }
-                }
-            }
-            f[i][j] = r;
-        }
-    }
-    return f[0][n];
-}
-static RSet eval_level(const std::vector<RSet> &operands, const std::vector<int> &ops, int level) {
-    if (level > 6) {
-        return operands[0];
-    }
-    // split at operators of this level; the pieces are evaluated at the next level
-    std::vector<RSet> parts;
-    std::vector<int>  pops;
-    std::vector<RSet> cur_o{operands[0]};
-    std::vector<int>  cur_p;
-    for (size_t i = 0; i < ops.size(); i++) {
-        if (LEVEL[ops[i]] == level) {
-            parts.push_back(eval_level(cur_o, cur_p, level + 1));
-            pops.push_back(ops[i]);
-            cur_o = {operands[i + 1]};
-            cur_p.clear();
-        } else {
-            cur_o.push_back(operands[i + 1]);
-            cur_p.push_back(ops[i]);
-        }
-    }
-    parts.push_back(eval_level(cur_o, cur_p, level + 1));
-    return eval_run(parts, pops);
-}
+#include "expr_ref.hpp"
 
 // ---------------------------------------------------------------------------------------------------------
 struct Operand {
